@@ -3,6 +3,8 @@ package props
 import (
 	"strings"
 
+	"golang.org/x/tools/go/ssa"
+
 	"scverif/an"
 )
 
@@ -23,4 +25,54 @@ func shareAs(c *an.Ctx, rule, newRule string, run func(sub *an.Ctx), keep func(c
 		n++
 	}
 	return n
+}
+
+// mergeOfParams: g is a helper that puts one of its parameters back into another: its body calls
+// proto.Merge(g.Params[dst], g.Params[src]); resetFirst says whether a proto.Reset of the same destination dominates
+// that merge. (The restore of a refused write extracted into a function of its own.)
+func mergeOfParams(g *ssa.Function) (dst, src int, resetFirst, ok bool) {
+	if g == nil || len(g.Blocks) == 0 {
+		return 0, 0, false, false
+	}
+	paramIdx := func(v ssa.Value) int {
+		for depth := 0; depth < 4; depth++ {
+			switch x := v.(type) {
+			case *ssa.MakeInterface:
+				v = x.X
+			case *ssa.ChangeInterface:
+				v = x.X
+			case *ssa.ChangeType:
+				v = x.X
+			}
+		}
+		for _, s0 := range append(an.Sources(v), an.SourcesOpaque(v)...) {
+			for i, p := range g.Params {
+				if s0 == ssa.Value(p) {
+					return i
+				}
+			}
+		}
+		return -1
+	}
+	var merge *ssa.Call
+	an.Instrs(g, func(in ssa.Instruction) {
+		call, isCall := in.(*ssa.Call)
+		if !isCall || !strings.HasSuffix(an.CalleeName(call), "protobuf/proto.Merge") || len(call.Call.Args) != 2 {
+			return
+		}
+		d, s0 := paramIdx(call.Call.Args[0]), paramIdx(call.Call.Args[1])
+		if d >= 0 && s0 >= 0 && d != s0 {
+			merge, dst, src = call, d, s0
+		}
+	})
+	if merge == nil {
+		return 0, 0, false, false
+	}
+	an.Instrs(g, func(in ssa.Instruction) {
+		rc, isCall := in.(*ssa.Call)
+		if isCall && strings.HasSuffix(an.CalleeName(rc), "protobuf/proto.Reset") && len(rc.Call.Args) == 1 && paramIdx(rc.Call.Args[0]) == dst && an.Dominates(rc, merge) {
+			resetFirst = true
+		}
+	})
+	return dst, src, resetFirst, true
 }
